@@ -22,8 +22,9 @@ func init() { props["C02"] = runC02 }
 // ---- forests on the real file system ----
 
 type c02Forest struct {
-	root  string            // host directory holding the forest
-	dirs  []string          // absolute host paths
+	top   string   // the temporary directory that holds the private levels and the forest
+	root  string   // host directory holding the forest
+	dirs  []string // absolute host paths
 	files []string
 	links map[string]string // host path -> target text
 }
@@ -35,7 +36,14 @@ func newForest(rng *Rng, n int) *c02Forest {
 		fatal("mkdtemp: %v", err)
 	}
 	root, _ = filepath.EvalSymlinks(root)
-	f := &c02Forest{root: root, links: map[string]string{}}
+	// the forest lives 24 private, otherwise empty levels below the temporary directory, so that names that climb
+	// with ".." (in the path or in link targets) never reach directories the model does not know (/tmp, /)
+	top := root
+	for i := 0; i < 24; i++ {
+		root = filepath.Join(root, "_")
+	}
+	os.MkdirAll(root, 0755)
+	f := &c02Forest{root: root, top: top, links: map[string]string{}}
 	for _, d := range []string{"a", "a/b", "a/b/c", "w", "w/d", "x"} {
 		os.MkdirAll(filepath.Join(root, d), 0755)
 		f.dirs = append(f.dirs, filepath.Join(root, d))
@@ -80,7 +88,7 @@ func newForest(rng *Rng, n int) *c02Forest {
 	return f
 }
 
-func (f *c02Forest) remove() { os.RemoveAll(f.root) }
+func (f *c02Forest) remove() { os.RemoveAll(f.top) }
 
 func (f *c02Forest) linkSpec() string {
 	var l []string
@@ -243,7 +251,7 @@ var c02Syscalls = []c02Sys{
 }
 
 func runC02(res *Result, d *Driver, tier string, seed uint64) {
-	res.Rule = "part A: random directory/symlink forests on the real file system (absolute and relative link targets, '..' and '.' inside targets, link-to-link chains, cycles, dangling links) x random pathnames (absolute, cwd-relative, descriptor-relative, '.', '..', '//', trailing '/', missing final names): the real absPath/absPathAt/resolveTraceePath (verif hooks) applied to a live child process holding the cwd and directory descriptors, vs the regenerated functions run by Go-lite and the hand model (driver), vs the KERNEL's resolution of the same (dirfd, path) (openat O_PATH + readlink of /proc/self/fd); " +
+	res.Rule = "part A: random directory/symlink forests on the real file system (absolute and relative link targets, '..' and '.' inside targets, link-to-link chains, cycles, dangling links) x random pathnames (absolute, cwd-relative, descriptor-relative, '.', '..', '//', trailing '/', missing final names; in traced runs the name lies in one page of the tracee's memory or across a page boundary at a random byte): the real absPath/absPathAt/resolveTraceePath (verif hooks) applied to a live child process holding the cwd and directory descriptors, vs the regenerated functions run by Go-lite and the hand model (driver), vs the KERNEL's resolution of the same (dirfd, path) (openat O_PATH + readlink of /proc/self/fd); " +
 		"part B: every trapped path syscall issued by the probe under the REAL ptrace runner with a recording handler: the (class, path) sequence the policy is asked vs the ABI table, the open-flag class and the kernel's resolution; dirfd encodings AT_FDCWD as 32-bit zero-extended and 64-bit sign-extended register, real descriptors, invalid descriptors; /proc/self aliases; " +
 		"part C: isOpenReadOnly on random flag words vs regenerated code and mayModify; dirfd decoding on random registers. non-trivial = path containing a symlink, '..' or descriptor base; distinct = (forest, base, path) / (syscall, encoding, path)."
 	rng := NewRng(seed, "C02", 1)
@@ -417,6 +425,13 @@ func runC02(res *Result, d *Driver, tier string, seed uint64) {
 			return p
 		}
 		p1, p2 := mkPath(), mkPath()
+		// where the name lies in the tracee's memory is the tracee's choice: in one page, or across a page boundary at any byte
+		sArg := func(p string) string {
+			if len(p) > 1 && rng.Chance(35) {
+				return fmt.Sprintf("x:%d:%s", 1+rng.Intn(len(p)), p)
+			}
+			return "s:" + p
+		}
 		flags := []uint64{0, 1, 2, 3, unix.O_CREAT, unix.O_TRUNC, unix.O_EXCL, unix.O_RDONLY | unix.O_CLOEXEC | unix.O_DIRECTORY, unix.O_WRONLY | unix.O_CREAT | unix.O_TRUNC, unix.O_PATH, unix.O_RDWR | unix.O_APPEND}[rng.Intn(11)]
 		howArg := "how:" + strconv.FormatUint(flags, 10)
 		howBad := rng.Chance(15)
@@ -443,33 +458,33 @@ func runC02(res *Result, d *Driver, tier string, seed uint64) {
 		cwdFd := int(workH.Fd())
 		switch sc.shape {
 		case "p":
-			call = fmt.Sprintf("sys %d s:%s", sc.nr, p1)
+			call = fmt.Sprintf("sys %d %s", sc.nr, sArg(p1))
 			wants = []want{{sc.class, cwdFd, true, p1}}
 		case "pf":
-			call = fmt.Sprintf("sys %d s:%s %d 0644", sc.nr, p1, flags)
+			call = fmt.Sprintf("sys %d %s %d 0644", sc.nr, sArg(p1), flags)
 			wants = []want{{openClass(flags, false), cwdFd, true, p1}}
 		case "pp":
-			call = fmt.Sprintf("sys %d s:%s s:%s", sc.nr, p1, p2)
+			call = fmt.Sprintf("sys %d %s %s", sc.nr, sArg(p1), sArg(p2))
 			wants = []want{{sc.class, cwdFd, true, p1}, {sc.class, cwdFd, true, p2}}
 		case "dp":
 			k, v := kfdOf()
-			call = fmt.Sprintf("sys %d %s s:%s 0 0", sc.nr, encArg, p1)
+			call = fmt.Sprintf("sys %d %s %s 0 0", sc.nr, encArg, sArg(p1))
 			wants = []want{{sc.class, k, v, p1}}
 		case "dpf":
 			k, v := kfdOf()
-			call = fmt.Sprintf("sys %d %s s:%s %d 0644", sc.nr, encArg, p1, flags)
+			call = fmt.Sprintf("sys %d %s %s %d 0644", sc.nr, encArg, sArg(p1), flags)
 			wants = []want{{openClass(flags, false), k, v, p1}}
 		case "dph":
 			k, v := kfdOf()
-			call = fmt.Sprintf("sys %d %s s:%s %s 24", sc.nr, encArg, p1, howArg)
+			call = fmt.Sprintf("sys %d %s %s %s 24", sc.nr, encArg, sArg(p1), howArg)
 			wants = []want{{openClass(flags, howBad), k, v, p1}}
 		case "sdp":
 			k, v := kfdOf()
-			call = fmt.Sprintf("sys %d s:%s %s s:%s", sc.nr, "some/target", encArg, p1)
+			call = fmt.Sprintf("sys %d s:%s %s %s", sc.nr, "some/target", encArg, sArg(p1))
 			wants = []want{{sc.class, k, v, p1}}
 		case "dpdp":
 			k, v := kfdOf()
-			call = fmt.Sprintf("sys %d %s s:%s fdcwd32 s:%s 0", sc.nr, encArg, p1, p2)
+			call = fmt.Sprintf("sys %d %s %s fdcwd32 %s 0", sc.nr, encArg, sArg(p1), sArg(p2))
 			wants = []want{{sc.class, k, v, p1}, {sc.class, cwdFd, true, p2}}
 		}
 		script := call + "; exit 0"
